@@ -24,8 +24,43 @@ func runLine(h *harness, out *common.Out, fields []string) {
 			return
 		}
 		emitReq(h, out, c)
+	case "cli":
+		c, err := parseCliCase(fields[1:])
+		if err != nil {
+			out.Line("# bad corpus line (%v): %s", err, strings.Join(fields, " "))
+			return
+		}
+		emitCli(h, out, c)
 	default:
 		out.Line("# unknown case kind %s", fields[0])
+	}
+}
+
+var theClients *clients
+
+func emitCli(h *harness, out *common.Out, c cliCase) {
+	if theClients == nil {
+		theClients = newClients(h)
+	}
+	var res string
+	func() {
+		defer func() {
+			if p := recover(); p != nil {
+				res = fmt.Sprintf("ops=panic:%v ret=differ", strings.ReplaceAll(fmt.Sprint(p), " ", "_"))
+			}
+		}()
+		var err error
+		for attempt := 0; attempt < 3; attempt++ {
+			res, err = theClients.exec(c)
+			if err == nil {
+				return
+			}
+		}
+		res = ""
+		out.Line("# inconclusive %s (%s)", c.inputTokens(false), strings.ReplaceAll(err.Error(), "\n", " "))
+	}()
+	if res != "" {
+		out.Line("C11 %s => %s", c.inputTokens(true), res)
 	}
 }
 
@@ -100,6 +135,20 @@ func main() {
 				emitReq(h, out, sys[k])
 			} else {
 				emitReq(h, out, genReq(base.Fork(uint64(k))))
+			}
+		}
+	case "client":
+		sys := sysCli()
+		total := len(sys) + n
+		for k := 0; k < total; k++ {
+			if args.Only >= 0 && k != args.Only {
+				continue
+			}
+			if k < len(sys) {
+				emitCli(h, out, sys[k])
+			} else {
+				r := base.Fork(uint64(k))
+				emitCli(h, out, genCli(r, cliCalls[r.Intn(len(cliCalls))]))
 			}
 		}
 	default:
